@@ -14,6 +14,12 @@
    start"                                                         composed with C18's generated option strings)
   "and 1 when it refuses its arguments"                          refused_exit1, option_refusal_exit1 (composed with C18's
                                                                  `effective`: every refusal of the option stage is 1),
+                                                                 every_refusal_exits_1 / every_info_exits_0 (EVERY statement of
+                                                                 main.c / opt.c / module loading / dsh()'s prologue that ends
+                                                                 the process before a target is contacted: Dsh/ExitRefuse.lean),
+                                                                 tied to the source by the generated call-site probe:
+                                                                 exit_sites_all_mapped, battery_agrees, every_refusal_probed,
+                                                                 refusal_all_complete;
                                                                  abort_exit1 / sigint_abort_nonzero (^C, composed with C20)
   "with -S the exit status is the largest return code of any     S_is_max (repaired D8; S_is_max_unchanged_false,
    remote command, raised to 254 if any host could not be        S_is_max_partial), aggregate_perm, mainExit_perm,
@@ -25,7 +31,14 @@
    success"
   "with -k any failure makes the exit status non-zero"           k_any_failure_nonzero, k_out_of_band_failure (the -k test
                                                                  reads the status AFTER the teardown merge),
-                                                                 out_of_band_rc_before_teardown
+                                                                 out_of_band_rc_before_teardown;
+                                                                 -k AS A TRANSITION SYSTEM (Dsh/ExitKill.lean: the poll-loop
+                                                                 iterations, `_die_if_signalled`, the teardown test, `_fwd_signal`):
+                                                                 kill_any_failure_every_schedule, kill_failing_host_completes,
+                                                                 kill_exit_every_schedule (= mainExit, every schedule),
+                                                                 kill_exec_every_schedule, kill_inband_every_schedule
+                                                                 (noEarlyDeath_inband), kill_siblings, kill_returned_all_done,
+                                                                 kill_witnesses, kill_early_death_witness
   quantifier "in any completion order"                           one_status_per_target, exit_any_schedule (composed with
                                                                  the fan-out LTS of C03: every schedule of every fanout)
   mechanism "marker appended to command"                         marker_requested, sent_command_keeps_command
@@ -40,10 +53,21 @@
   NOT PROVED / NOT MODELLED:
     * `pipecmd_wait` / `waitpid` (that exec_destroy blocks until the child is gone and returns its real status): real
       children in the harness (`xd`, late-exit children) and the real binary, no theorem.
-    * the -k fail-fast is modelled by its effect on the exit status (`kFails` on the per-target data AFTER the teardown
-      merge: k_out_of_band_failure), not as a transition of the fan-out LTS (which sibling is killed when): the real
-      dsh() (scripted transport) and the real binary run out-of-band failure x -k x position in every quick run.
-    * `_die_if_signalled` (a marker code > 128 in mid-stream under -k): time dependent; generator keeps clear of it.
+    * -k: the transition system of Dsh/ExitKill.lean is the fanout-UNCONSTRAINED one (any target may be started at any
+      time); the executions of the real dispatcher are a subset, so the every-schedule theorems cover them, but "at most
+      fanout siblings are in flight when the run is ended" is C04's statement, not repeated here.  Two threads calling
+      exit() at the same instant (two failures noticed at once) are one `exited` state of the model: the first wins;
+      exit() is atomic in the model, in the real process the other threads run on until it has finished (a pending target
+      may still be started in that interval: recorded by the check, `k_started_during_exit`, not judged).
+      `pthread_create` failing (dsh(): errx, with -k after `_fwd_signal`) needs fault injection: not modelled, not driven.
+    * outside the domain (two marker lines for one target) the exit status of a -k run depends on how the output is cut
+      into poll-loop iterations: kill_early_death_witness; the generator keeps to one marker line per target.
+    * the refusal paths inside mod.c / wcoll.c / rcmd.c (module directory checks, the target file reader, the transport
+      registry) are driven on the real binary (vlib/exitrefuse.py), their call sites are not enumerated by the probe
+      (harness/consts/exitsites.c covers opt.c and main.c); sites only a failing system call reaches (getcwd, getpwuid,
+      fork, malloc) are listed by the probe (XS_SYSFAIL), not exercised.  `stdin_unavailable` is never set in this tree,
+      so the `_usage` call of opt_verify ("no command and stdin taken by -w -") is dead code: `pdsh -w -` without a
+      command enters the prompt loop at end of file (battery entry stdin-taken-no-command).
     * the Linux wait-status encoding, glibc atoi / strstr: modelled (Exit.lean, Base/CInt.lean), not verified.
     * pdcp / rpdcp: the exit status of a copy run is 0 whatever was copied (pcp_exit0); whether files arrived is C11.
 -/
@@ -57,6 +81,8 @@ import PdshVerif.Dsh.SignalsAbort
 import PdshVerif.Dsh.ExitFan
 import PdshVerif.Dsh.FanExec
 import PdshVerif.Opt.Command
+import PdshVerif.Dsh.ExitKillLemmas
+import PdshVerif.Dsh.ExitRefuse
 
 namespace PdshVerif.C08
 open PdshVerif PdshVerif.Dsh PdshVerif.Dsh.Exit
@@ -636,5 +662,303 @@ theorem option_refusal_exit1 {ofx : Opt.Fixes} {d : Opt.Defaults} {p : Opt.Pers}
   rcases Opt.effective_exit_code h with h1 | ⟨_, t, hm, ha⟩
   · rw [h1]; rfl
   · exact absurd ha (hinfo t hm)
+
+/-! ## every refusal path of main / opt.c / module loading / dsh()'s prologue -/
+
+/-- EVERY REFUSAL EXITS 1: whichever statement ends the process before a target is contacted — `errx` (err.c: exit 1),
+    a literal `exit (1)`, `_usage`, or main returning the `retval = 1` of a failed opt_verify — the status is 1, the
+    status this model gives a refused run, whatever the flags (-S / -k play no part before dsh() is entered) -/
+theorem every_refusal_exits_1 (r : Refusal) (fx : Fixes) (fl : Flags) :
+    r.ending.status = 1 ∧ r.ending.status = mainExit fx fl .refused := by
+  cases r <;> exact ⟨rfl, rfl⟩
+
+/-- ... and every information-only ending (-L -V -T -q) exits 0 -/
+theorem every_info_exits_0 (i : Info) : i.ending.status = 0 := by
+  cases i <;> rfl
+
+/-- the enumeration is complete as a type: every refusal is in `Refusal.all` (so a constructor added to the model
+    must be given an ending, a name and a probe entry before this file builds) -/
+theorem refusal_all_complete (r : Refusal) : r ∈ Refusal.all := by
+  cases r <;> simp [Refusal.all]
+
+/-- THE TIE TO THE SOURCE (Gen/Exitsites.lean is regenerated from the tree under check on every run by
+    harness/consts/exitsites.c): every `errx` / `exit` call site of opt.c and main.c is reached by an entry of the
+    probe's battery (or is one of the listed sites only a failing system call reaches).  A NEW exit path in opt.c /
+    main.c that no known refusal reaches makes this list non-empty: the theorem no longer builds. -/
+theorem exit_sites_all_mapped : Gen.XS_UNREACHED = [] := by decide
+
+/-- every entry of the battery — run through the REAL main() of the tree under check — ended with the status the model
+    gives for the outcome it stands for: each refusal 1, each information-only ending 0, a started run 0 -/
+theorem battery_agrees :
+    Gen.XS_BATTERY.all (fun e => statusOfName e.2.1 = some e.2.2.2) = true := by decide
+
+/-- every refusal of the model (but the two in dsh()'s prologue, which the probe's stub of dsh() cannot reach: they
+    are driven on the real binary) is exercised by at least one entry of the battery -/
+theorem every_refusal_probed :
+    (Refusal.all.filter (· ∉ Refusal.beyondProbe)).all
+      (fun r => Gen.XS_BATTERY.any (fun e => e.2.1 = r.name)) = true := by decide
+
+/-! ## -k as a transition system (Dsh/ExitKill.lean): where the process ends, in every schedule -/
+
+section KillSchedules
+open Kill
+
+/-- -K, EVERY SCHEDULE (any variant of the code): take any schedule of a -k run — any interleaving of the workers, any
+    cutting of every target's output into poll-loop iterations, any number of targets in flight — that ends the
+    process.  If some target's command failed (a positive code through either channel, an unreachable host, a
+    time-out), the exit status is 1 and the process was NOT ended by dsh() returning: it was ended by a worker's -k
+    test.  (The executions of the real dispatcher are a subset of the schedules quantified over here.) -/
+theorem kill_any_failure_every_schedule (fx : Fixes) (S : Bool) (ts : List Target) (evs : List Ev)
+    {c : Nat} {how : How} {ps : List Phase} {sg : List Nat}
+    (hx : exec fx ⟨S, true⟩ ts (init ts) evs = some (.exited c how ps sg))
+    (hfail : ∃ t ∈ ts, kFails (hostOfT fx t) = true) : c = 1 ∧ how ≠ .returned := by
+  have hi := sinv_reach fx ⟨S, true⟩ ts evs _ hx
+  obtain ⟨hinv, hhow⟩ := hi
+  cases how with
+  | midstream i => exact ⟨hhow.1, by simp⟩
+  | teardown i => exact ⟨hhow.1, by simp⟩
+  | returned =>
+    exfalso
+    obtain ⟨hall, _, _⟩ := hhow
+    obtain ⟨e1, e2⟩ := hostsOf_all_finished fx ⟨S, true⟩ ts ps hinv hall
+    have hnone := e2 rfl
+    rw [e1, List.any_eq_false] at hnone
+    obtain ⟨t, ht, hk⟩ := hfail
+    exact hnone (hostOfT fx t) (List.mem_map.mpr ⟨t, ht, rfl⟩) hk
+
+/-- THE FAILING HOST CANNOT COMPLETE SILENTLY: in whatever reachable state of a -k run the teardown of a target whose
+    final status fails is executed, that step ends the process with status 1, right there: the schedules "in which
+    the failing host completes" all end in `exited 1 (teardown i)` at that step (or ended before it) -/
+theorem kill_failing_host_completes (fx : Fixes) (S : Bool) (ts : List Target) (evs : List Ev) (ps : List Phase)
+    (i : Nat) (sc : Script) (hx : exec fx ⟨S, true⟩ ts (init ts) evs = some (.run ps))
+    (hi : ts[i]? = some (some sc)) (hk : kFails (hostOf fx sc) = true) (s' : St)
+    (hs : step fx ⟨S, true⟩ ts (.run ps) (.teardown i) = some s') :
+    s' = .exited 1 (.teardown i) ps (readingIdx ps) := by
+  have hinv : Inv fx ⟨S, true⟩ ts ps := sinv_reach fx ⟨S, true⟩ ts evs _ hx
+  simp only [step, hi] at hs
+  split at hs
+  · next st rc sc' h1 h2 =>
+    simp only [Option.some.injEq] at h2; subst h2
+    obtain ⟨hp, e1⟩ := getElem_of_getElem? h1
+    obtain ⟨ht, e2⟩ := getElem_of_getElem? hi
+    have hok := hinv.2 i hp ht
+    rw [e1, e2] at hok
+    have hok' : (⟨st, finalRc rc sc.rv⟩ : Host) = hostOf fx sc := hok
+    rw [hok', hk] at hs
+    simpa using hs.symm
+  · cases hs
+
+/-- THE EXIT STATUS DOES NOT DEPEND ON THE SCHEDULE, and it is `mainExit` (the function every other theorem of this
+    file is about, the one the driver runs): for every flag combination and every schedule that ends the process —
+    by a mid-stream death, by a teardown test, or by dsh() returning — the status is
+    `mainExit fx fl (.started (statuses of the targets))`, provided no target dies in mid-stream although its final
+    status is a success (`NoEarlyDeath`: true of every out-of-band target and of every target whose output carries
+    one marker line, see `noEarlyDeath_of_no_lines`, `noEarlyDeath_of_prefix_stable`; FALSE e.g. for an output with a
+    marker line > 128 followed by a marker line 0: `kill_early_death_witness`) -/
+theorem kill_exit_every_schedule (fx : Fixes) (fl : Flags) (ts : List Target) (evs : List Ev)
+    {c : Nat} {how : How} {ps : List Phase} {sg : List Nat}
+    (hx : exec fx fl ts (init ts) evs = some (.exited c how ps sg)) (hne : NoEarlyDeath fx ts) :
+    c = mainExit fx fl (.started (ts.map (hostOfT fx))) :=
+  exited_code fx fl ts c how ps sg (sinv_reach fx fl ts evs _ hx) hne
+
+/-- out-of-band status (`-R exec`): every schedule of every outcome vector ends with the status `mainExit` gives,
+    which the specification admits (composition with `exec_exit_admissible`) -/
+theorem kill_exec_every_schedule (fx : Fixes) (hd7 : fx.d7 = true) (hd8 : fx.d8 = true) (S k : Bool)
+    (outs : List Outcome) (hok : ∀ o ∈ outs, okOutcome o) (evs : List Ev)
+    {c : Nat} {how : How} {ps : List Phase} {sg : List Nat}
+    (hx : exec fx ⟨S, k⟩ (outs.map fun o => some (execScript fx o))
+      (init (outs.map fun o => some (execScript fx o))) evs = some (.exited c how ps sg)) :
+    ExitSpec.admissible S k false outs c = true := by
+  have hne : NoEarlyDeath fx (outs.map fun o => some (execScript fx o)) := by
+    apply noEarlyDeath_of_no_lines
+    intro sc hm
+    simp only [List.mem_map, Option.some.injEq] at hm
+    obtain ⟨o, _, rfl⟩ := hm
+    cases o <;> simp [linesOf, execScript, splitLines_nil]
+  have := kill_exit_every_schedule fx ⟨S, k⟩ _ evs hx hne
+  rw [this, List.map_map]
+  exact exec_exit_admissible fx hd7 hd8 S k outs hok
+
+/-- in-band data of the property's domain: after every prefix of the lines `th->rc` is 0 or already the marker's code -/
+theorem rcAfter_prefix_inband (fx : Fixes) (hd9 : fx.d9 = true) (hl : fx.late = true) (out late : List Str) (pre : Str)
+    (c : Nat) (hc : c < CInt.I31) (hout : ∀ l ∈ out, 'X' ∉ l) (hlate : ∀ l ∈ late, 'X' ∉ l)
+    (hpre : 'X' ∉ pre) (hnul : NUL ∉ pre) (m : Nat) :
+    rcAfter fx 0 (out ++ [markerLine pre c] ++ late) 0 m = 0 ∨
+    rcAfter fx 0 (out ++ [markerLine pre c] ++ late) 0 m = c := by
+  unfold rcAfter
+  simp only [List.drop_zero]
+  by_cases hm : m ≤ out.length
+  · left
+    rw [List.append_assoc, List.take_append_of_le_length hm]
+    exact foldl_lineStep_noX fx hl 0 _ (fun l h => hout l (List.mem_of_mem_take h))
+  · right
+    rw [List.take_append, List.take_of_length_le (by simp; omega)]
+    exact hostRc_inband fx hd9 hl out _ pre c hc hout (fun l h => hlate l (List.mem_of_mem_take h)) hpre hnul
+
+/-- IN-BAND TARGETS OF THE PROPERTY'S DOMAIN NEVER DIE EARLY WITHOUT FAILING (repaired D9 + late line): the hypothesis
+    of `kill_exit_every_schedule` holds for every vector of outcomes with in-band data -/
+theorem noEarlyDeath_inband (fx : Fixes) (hd9 : fx.d9 = true) (hl : fx.late = true)
+    (run : List (Outcome × InbandData)) (hok : ∀ ox ∈ run, okOutcome ox.1 ∧ ox.2.ok) :
+    NoEarlyDeath fx (run.map fun ox => some (inbandScript ox.2.out.flatten ox.2.pre ox.2.late.flatten ox.1)) := by
+  intro sc hm m hle hrc
+  simp only [List.mem_map, Option.some.injEq] at hm
+  obtain ⟨⟨o, x⟩, hmem, rfl⟩ := hm
+  obtain ⟨hoo, hx⟩ := hok _ hmem
+  have hF := inband_host_faithful fx hd9 hl o hoo x hx
+  cases o with
+  | connectFailed => simp [kFails, hF.1]
+  | timedOut => simp [kFails, hF.1]
+  | killed s =>
+    have := hF.2.1
+    simp only [kFails, Bool.or_eq_true, decide_eq_true_eq]
+    right; omega
+  | exited c =>
+    cases c with
+    | succ c =>
+      have : hostOf fx (inbandScript x.out.flatten x.pre x.late.flatten (.exited (c + 1))) = ⟨.done, ((c + 1 : Nat) : Int)⟩ := hF
+      rw [this]
+      simp only [kFails, Bool.or_eq_true, decide_eq_true_eq]
+      right; omega
+    | zero =>
+      exfalso
+      obtain ⟨ho, hla, hpx, hpn, hpl⟩ := hx
+      have lines : linesOf (inbandScript x.out.flatten x.pre x.late.flatten (.exited 0)) =
+          x.out ++ [markerLine x.pre 0] ++ x.late := by
+        have := splitLines_flatten (x.out ++ [markerLine x.pre 0] ++ x.late) [] (by
+          intro l hl'
+          simp only [List.mem_append, List.mem_singleton] at hl'
+          rcases hl' with (h1 | h1) | h1
+          · exact (ho l h1).1
+          · subst h1; exact markerLine_isLine _ _ hpl
+          · exact (hla l h1).1) (by simp)
+        simpa [linesOf, inbandScript] using this
+      rw [lines] at hrc
+      rcases rcAfter_prefix_inband fx hd9 hl x.out x.late x.pre 0 (by unfold CInt.I31; omega)
+        (fun l h => (ho l h).2) (fun l h => (hla l h).2) hpx hpn m with h0 | h0 <;> rw [h0] at hrc <;> omega
+
+/-- IN-BAND CHANNEL, EVERY SCHEDULE (repaired D8 + D9 + late line): for every vector of outcomes with in-band data of
+    the property's domain, every flag combination and EVERY schedule that ends the process — however the output of
+    every target is cut into poll-loop iterations, whichever worker's -k test fires first — the exit status is one the
+    specification admits -/
+theorem kill_inband_every_schedule (fx : Fixes) (hd8 : fx.d8 = true) (hd9 : fx.d9 = true) (hl : fx.late = true)
+    (S k : Bool) (run : List (Outcome × InbandData)) (hok : ∀ ox ∈ run, okOutcome ox.1 ∧ ox.2.ok) (evs : List Ev)
+    {c : Nat} {how : How} {ps : List Phase} {sg : List Nat}
+    (hx : exec fx ⟨S, k⟩ (run.map fun ox => some (inbandScript ox.2.out.flatten ox.2.pre ox.2.late.flatten ox.1))
+      (init (run.map fun ox => some (inbandScript ox.2.out.flatten ox.2.pre ox.2.late.flatten ox.1))) evs =
+      some (.exited c how ps sg)) :
+    ExitSpec.admissible S k false (run.map (·.1)) c = true := by
+  have := kill_exit_every_schedule fx ⟨S, k⟩ _ evs hx (noEarlyDeath_inband fx hd9 hl run hok)
+  rw [this, List.map_map]
+  exact inband_exit_admissible fx hd8 hd9 hl S k run hok
+
+/-- WHAT HAS BECOME OF THE SIBLINGS when a -k test ends the process (every reachable such state):
+    (1) every target is in exactly one phase (the record has one entry per target);
+    (2) SIGTERM is forwarded (`_fwd_signal`) to exactly the targets inside their poll loop — state DSH_READING: the
+        commands that are running — and to no other: not to targets still connecting, not to those whose loop has
+        ended, not to those never started; in a mid-stream death that includes the dying target itself, in a teardown
+        death it does not;
+    (3) a sibling that had completed has its full final status, and it had succeeded (else IT would have ended the run);
+    (4) the model takes no step afterwards.  NOTE: `exited` is the moment exit() is CALLED.  In the real process the other
+        threads run on until exit() has finished: a signalled sibling's worker ends and frees its slot, and the dispatcher
+        may still call rcmd_connect for a pending target (observed on the scripted transport, evidence
+        `k_started_during_exit`; the connection is cut off when the process ends).  (4) is a statement about the model
+        only; nothing in the property speaks about that interval. -/
+theorem kill_siblings (fx : Fixes) (fl : Flags) (ts : List Target) (evs : List Ev)
+    {c : Nat} {how : How} {ps : List Phase} {sg : List Nat}
+    (hx : exec fx fl ts (init ts) evs = some (.exited c how ps sg)) (hhow : how ≠ .returned) :
+    ps.length = ts.length ∧
+    (∀ j : Nat, j ∈ sg ↔ ∃ seen rc, ps[j]? = some (Phase.reading seen rc)) ∧
+    (∀ (j : Nat) (h : Host), ps[j]? = some (Phase.finished h) → ts[j]?.map (hostOfT fx) = some h ∧ kFails h = false) ∧
+    (∀ e, step fx fl ts (.exited c how ps sg) e = none) ∧
+    (∀ i, how = .midstream i → i ∈ sg) ∧ (∀ i, how = .teardown i → i ∉ sg) := by
+  have hi := sinv_reach fx fl ts evs _ hx
+  obtain ⟨hinv, hh⟩ := hi
+  have hk : fl.k = true ∧ sg = readingIdx ps := by
+    cases how with
+    | midstream i => exact ⟨hh.2.1, hh.2.2.1⟩
+    | teardown i => exact ⟨hh.2.1, hh.2.2.1⟩
+    | returned => exact absurd rfl hhow
+  refine ⟨hinv.1, fun j => by rw [hk.2]; exact mem_readingIdx ps j, ?_, fun e => by cases e <;> rfl, ?_, ?_⟩
+  · intro j h hj
+    obtain ⟨hp, e1⟩ := getElem_of_getElem? hj
+    have ht : j < ts.length := by rw [← hinv.1]; exact hp
+    have hok := hinv.2 j hp ht
+    rw [e1] at hok
+    rw [List.getElem?_eq_getElem ht]
+    cases htj : ts[j] with
+    | none =>
+      rw [htj] at hok
+      have : h = ⟨.canceled, 0⟩ := by simpa [Ok] using hok
+      subst this
+      simp [hostOfT, kFails]
+    | some sc =>
+      rw [htj] at hok
+      obtain ⟨e2, e3⟩ : h = hostOf fx sc ∧ (fl.k = true → kFails h = false) := hok
+      exact ⟨by simp [hostOfT, e2], e3 hk.1⟩
+  · intro i hm
+    subst hm
+    obtain ⟨_, _, _, seen, rc, sc, h1, _, _⟩ := hh
+    rw [hk.2, mem_readingIdx]
+    exact ⟨seen, rc, h1⟩
+  · intro i hm
+    subst hm
+    obtain ⟨_, _, _, st, rc, sc, h1, _, _⟩ := hh
+    rw [hk.2, mem_readingIdx]
+    rintro ⟨seen, rc', h2⟩
+    rw [h1] at h2
+    cases h2
+
+/-- ... and when dsh() returns, every target has completed, none was signalled, and under -k all of them succeeded -/
+theorem kill_returned_all_done (fx : Fixes) (fl : Flags) (ts : List Target) (evs : List Ev)
+    {c : Nat} {ps : List Phase} {sg : List Nat}
+    (hx : exec fx fl ts (init ts) evs = some (.exited c .returned ps sg)) :
+    sg = [] ∧ hostsOf ps = ts.map (hostOfT fx) ∧ (fl.k = true → (ts.map (hostOfT fx)).any kFails = false) := by
+  obtain ⟨hinv, hall, _, hsg⟩ := sinv_reach fx fl ts evs _ hx
+  obtain ⟨e1, e2⟩ := hostsOf_all_finished fx fl ts ps hinv hall
+  exact ⟨hsg, e1, fun hk => by rw [← e1]; exact e2 hk⟩
+
+/-- four targets: 0 prints the marker line of a command killed by signal 9 and keeps its stream open, 1 is a healthy
+    command that is still running, 2 is a healthy one that has completed, 3 ends with code 3 (out of band) -/
+def killWitness : List Target :=
+  [some { connectOk := true, stdout := "XXRETCODE:137\n".toList, timedOut := false, rv := 0 },
+   some { connectOk := true, stdout := "hello\n".toList, timedOut := false, rv := 0 },
+   some { connectOk := true, stdout := [], timedOut := false, rv := 0 },
+   some { connectOk := true, stdout := [], timedOut := false, rv := 3 }]
+
+/-- EVERY SIBLING FATE IS REACHABLE, and both -k tests are: a schedule in which target 0 dies in mid-stream while
+    sibling 1 is in its poll loop (signalled, with the dying target itself), sibling 2 has completed and sibling 3 was
+    never started; a schedule of the same run in which target 3 (exit code 3 through the teardown) ends it while
+    0 has not been polled yet; and, without -k, the sequential schedule in which dsh() returns -/
+theorem kill_witnesses :
+    exec Fixes.all ⟨false, true⟩ killWitness (init killWitness)
+      [.start 2, .connected 2, .leave 2, .teardown 2, .start 0, .start 1, .connected 1, .connected 0, .poll 1 1, .poll 0 1] =
+      some (.exited 1 (.midstream 0)
+        [.reading 1 137, .reading 1 0, .finished ⟨.done, 0⟩, .new] [0, 1]) ∧
+    exec Fixes.all ⟨false, true⟩ killWitness (init killWitness)
+      [.start 0, .connected 0, .start 3, .connected 3, .leave 3, .teardown 3] =
+      some (.exited 1 (.teardown 3) [.reading 0 0, .new, .new, .atEnd .done 0] [0]) ∧
+    exec Fixes.all ⟨false, false⟩ killWitness (init killWitness) (sequential killWitness) =
+      some (.exited 0 .returned
+        [.finished ⟨.done, 137⟩, .finished ⟨.done, 0⟩, .finished ⟨.done, 0⟩, .finished ⟨.done, 3⟩] []) := by
+  decide
+
+/-- OUTSIDE the domain (two marker lines): whether the process ends in mid-stream depends on how the output is cut
+    into poll-loop iterations — both lines in one iteration: the later marker has reset `th->rc` before
+    `_die_if_signalled` looks, the run ends 0; one line per iteration: it dies with 1.  (`NoEarlyDeath` excludes
+    exactly this; the generator of checks/c08.py keeps clear of it, as the remote shell prints ONE marker line.) -/
+theorem kill_early_death_witness :
+    exec Fixes.all ⟨false, true⟩
+      [some { connectOk := true, stdout := "XXRETCODE:137\nXXRETCODE:0\n".toList, timedOut := false, rv := 0 }]
+      (init [some { connectOk := true, stdout := "XXRETCODE:137\nXXRETCODE:0\n".toList, timedOut := false, rv := 0 }])
+      [.start 0, .connected 0, .poll 0 2, .leave 0, .teardown 0, .ret] =
+      some (.exited 0 .returned [.finished ⟨.done, 0⟩] []) ∧
+    exec Fixes.all ⟨false, true⟩
+      [some { connectOk := true, stdout := "XXRETCODE:137\nXXRETCODE:0\n".toList, timedOut := false, rv := 0 }]
+      (init [some { connectOk := true, stdout := "XXRETCODE:137\nXXRETCODE:0\n".toList, timedOut := false, rv := 0 }])
+      [.start 0, .connected 0, .poll 0 1] =
+      some (.exited 1 (.midstream 0) [.reading 1 137] [0]) := by
+  decide
+
+end KillSchedules
 
 end PdshVerif.C08
